@@ -163,6 +163,9 @@ func (c *fconn) WriteTo(m ndp.Message, _ *ipv6.ControlMessage, dst netip.Addr) e
 	if c.w.writeFault != nil {
 		err = c.w.writeFault(c, dst)
 	}
+	if err == nil && c.w.writeFaultRA != nil {
+		err = c.w.writeFaultRA(c, dst, ra)
+	}
 	if c.w.latency {
 		// Transmit latency: the call is in flight while others may run.
 		vsched.Point("conn.WriteTo:inflight")
@@ -254,7 +257,9 @@ type world struct {
 	// dialFault(n) is asked before the n-th open (0-based); non-nil fails it.
 	dialFault  func(n int) error
 	writeFault func(c *fconn, dst netip.Addr) error
-	latency    bool
+	// writeFaultRA is like writeFault but also sees the advertisement.
+	writeFaultRA func(c *fconn, dst netip.Addr, ra *ndp.RouterAdvertisement) error
+	latency      bool
 	// hooks called (in the calling goroutine) when the n-th (1-based) WriteTo
 	// begins / forwarding read happens: used to arm harness threads at
 	// constructed instants.
